@@ -461,10 +461,12 @@ func parseLabelPosition(opts *labelOpts, arg string) error {
 		case "top":
 			opts.bottom = false
 		default:
-			opts.column, err = atoi(token)
+			if opts.column, err = atoi(token); err != nil {
+				return err
+			}
 		}
 	}
-	return err
+	return nil
 }
 
 func (a previewOpts) aboveOrBelow() bool {
